@@ -8,7 +8,10 @@
 (B) code -> spec: a real Host wired to a real Controller (bumble/host.py, bumble/controller.py) through a tap
     with order-preserving seeded delay lines; one command of every class registered in
     hci.HCI_Command.command_classes (several parameter fillings) and unregistered opcodes, issued by 1..4
-    concurrent caller tasks; procedure scenarios on a LocalLink with peers present / absent / vanishing;
+    concurrent caller tasks; commands whose hand-over fails (a field value that does not fit: the packet cannot be
+    serialised; a transport sink that raises once) among them; procedure scenarios on a LocalLink with peers
+    present / absent / vanishing, a second connection creation (legacy / extended command) while one is pending,
+    the handle-addressed procedures from both roles under every capability set of either controller;
     a scripted controller that plays Num_HCI_Command_Packets games against the real Host.
     Recorded call/h2c/rcv/c2h/evt/nop/dlv/ret/quiesce events are validated by CommandTrace.tla.
 """
@@ -37,7 +40,7 @@ class SetupStuck(Harness):
 
 
 # ============================================================================= (M) model checking
-INVS = ["TypeOK", "Inv_OneOutstanding", "Inv_OneInFlight", "Inv_OwnOpcode", "Inv_Credit", "Inv_Pending"]
+INVS = ["TypeOK", "Inv_OneOutstanding", "Inv_OneInFlight", "Inv_OwnOpcode", "Inv_Credit", "Inv_Pending", "Inv_SlotFree"]
 LIVE = ["Live_Answered", "Live_Concluded", "Live_Credit"]
 
 
@@ -45,13 +48,14 @@ def _set(xs):
     return "{" + ", ".join(str(x) for x in xs) + "}"
 
 
-def mc_cfg(c, live):
+def mc_cfg(c, live, invs=None):
     lines = ["SPECIFICATION Spec" if live else "INIT Init\nNEXT Next", "CONSTANTS",
              f"  Tasks = {_set(c['Tasks'])}", f"  Ops = {_set(c['Ops'])}", f"  ProcOps = {_set(c['ProcOps'])}",
              f"  WeakOps = {_set(c['WeakOps'])}", f"  CancelOp = {c['CancelOp']}", f"  CancelTarget = {c['CancelTarget']}",
+             f"  AliasOp = {c.get('AliasOp', 0)}", f"  AliasTarget = {c.get('AliasTarget', 0)}", f"  FailOps = {_set(c.get('FailOps', []))}",
              f"  MaxCalls = {c['MaxCalls']}", f"  CreditGames = {'TRUE' if c['CreditGames'] else 'FALSE'}",
              f"  HostBug = \"{c.get('HostBug', 'none')}\"", f"  CtrlBug = \"{c.get('CtrlBug', 'none')}\""]
-    lines += [f"INVARIANT {i}" for i in INVS]
+    lines += [f"INVARIANT {i}" for i in (invs or INVS)]
     if live:
         lines += [f"PROPERTY {p}" for p in LIVE]
     lines.append("CHECK_DEADLOCK FALSE")
@@ -84,7 +88,7 @@ def run_mc(ctx, name, consts, live, workers=4, expect=None):
     return res
 
 
-def _tlc_raw(ctx, name, consts, live):
+def _tlc_raw(ctx, name, consts, live, invs=None):
     """plain TLC run returning its output (negative controls: a violation is the expected outcome)"""
     import shutil
     import subprocess
@@ -92,7 +96,7 @@ def _tlc_raw(ctx, name, consts, live):
 
     cfgp = os.path.join(ctx.out, f"mc_{name}.cfg")
     with open(cfgp, "w") as f:
-        f.write(mc_cfg(consts, live))
+        f.write(mc_cfg(consts, live, invs))
     meta = tempfile.mkdtemp(prefix="neg-", dir=ctx.out)
     try:
         r = subprocess.run(["java", "-XX:+UseParallelGC", "-cp", tlc.JAR, "tlc2.TLC", "-workers", "2", "-metadir", meta, "-noGenerateSpecTE",
@@ -111,16 +115,16 @@ ACTIONS = ["Call", "Send", "HostRecv", "Return", "CtrlRecv", "CtrlReply", "Concl
 def model_check(ctx, rep):
     if ctx.quick:
         runs = [
-            ("safety3", dict(Tasks=[1, 2, 3], Ops=[1, 2, 3], ProcOps=[2], WeakOps=[2], CancelOp=3, CancelTarget=2, MaxCalls=1, CreditGames=True), False),
-            ("live_proc", dict(Tasks=[1, 2, 3], Ops=[1, 2], ProcOps=[2], WeakOps=[], CancelOp=0, CancelTarget=2, MaxCalls=1, CreditGames=False), True),
-            ("live_cancel", dict(Tasks=[1, 2], Ops=[2, 3], ProcOps=[2], WeakOps=[2], CancelOp=3, CancelTarget=2, MaxCalls=2, CreditGames=True), True),
+            ("safety3", dict(Tasks=[1, 2, 3], Ops=[1, 2, 3, 4], ProcOps=[2], WeakOps=[2], CancelOp=3, CancelTarget=2, AliasOp=4, AliasTarget=2, FailOps=[1, 4], MaxCalls=1, CreditGames=True), False),
+            ("live_proc", dict(Tasks=[1, 2, 3], Ops=[1, 2], ProcOps=[2], WeakOps=[], CancelOp=0, CancelTarget=2, FailOps=[1], MaxCalls=1, CreditGames=False), True),
+            ("live_cancel", dict(Tasks=[1, 2], Ops=[2, 3, 4], ProcOps=[2], WeakOps=[2], CancelOp=3, CancelTarget=2, AliasOp=4, AliasTarget=2, FailOps=[4], MaxCalls=2, CreditGames=True), True),
         ]
     else:
         runs = [
-            ("safety4", dict(Tasks=[1, 2, 3, 4], Ops=[1, 2, 3, 4], ProcOps=[2, 4], WeakOps=[2], CancelOp=3, CancelTarget=2, MaxCalls=1, CreditGames=True), False),
-            ("safety3x2", dict(Tasks=[1, 2, 3], Ops=[1, 2, 3, 4], ProcOps=[2, 4], WeakOps=[2], CancelOp=3, CancelTarget=2, MaxCalls=2, CreditGames=False), False),
-            ("live_proc4", dict(Tasks=[1, 2, 3, 4], Ops=[1, 2, 4], ProcOps=[2, 4], WeakOps=[], CancelOp=0, CancelTarget=2, MaxCalls=1, CreditGames=False), True),
-            ("live_cancel3", dict(Tasks=[1, 2, 3], Ops=[1, 2, 3], ProcOps=[2], WeakOps=[2], CancelOp=3, CancelTarget=2, MaxCalls=1, CreditGames=True), True),
+            ("safety4", dict(Tasks=[1, 2, 3, 4], Ops=[1, 2, 3, 4, 5], ProcOps=[2, 4], WeakOps=[2], CancelOp=3, CancelTarget=2, AliasOp=5, AliasTarget=2, FailOps=[1, 5], MaxCalls=1, CreditGames=True), False),
+            ("safety3x2", dict(Tasks=[1, 2, 3], Ops=[1, 2, 3, 4, 5], ProcOps=[2, 4], WeakOps=[2], CancelOp=3, CancelTarget=2, AliasOp=5, AliasTarget=2, FailOps=[1, 4], MaxCalls=2, CreditGames=False), False),
+            ("live_proc4", dict(Tasks=[1, 2, 3, 4], Ops=[1, 2, 4], ProcOps=[2, 4], WeakOps=[], CancelOp=0, CancelTarget=2, FailOps=[1, 4], MaxCalls=1, CreditGames=False), True),
+            ("live_cancel3", dict(Tasks=[1, 2, 3], Ops=[1, 2, 3, 4], ProcOps=[2], WeakOps=[2], CancelOp=3, CancelTarget=2, AliasOp=4, AliasTarget=2, FailOps=[1], MaxCalls=1, CreditGames=True), True),
             ("live_3proc", dict(Tasks=[1, 2, 3], Ops=[2, 4, 5], ProcOps=[2, 4, 5], WeakOps=[], CancelOp=0, CancelTarget=2, MaxCalls=1, CreditGames=False), True),
         ]
     with concurrent.futures.ThreadPoolExecutor(max_workers=len(runs)) as ex:
@@ -129,14 +133,14 @@ def model_check(ctx, rep):
     for res in results:
         if res["violation"]:
             raise tlc.TlcError(f"Command.tla ({res['name']}) violates {res['violation']} in the model itself:\n{res['out'][-2500:]}")
-        need = list(ACTIONS) + (["CtrlCredit"] if res["consts"]["CreditGames"] else [])
+        need = list(ACTIONS) + (["CtrlCredit"] if res["consts"]["CreditGames"] else []) + (["FailOne"] if res["consts"].get("FailOps") else [])
         tlc.require_actions(res, need, f"Command.tla/{res['name']}")
         rep.add_mc(f"Hci/Command.tla[{res['name']}{', liveness' if res['live'] else ''}]", res, res["consts"])
     return results
 
 
 # ============================================================================= (B) recording
-BLANK = dict(e="", t=0, op=0, k="", st="", n=0, keys=[], ckey="", wk=False, ty="", rop=0, out="", pend=[])
+BLANK = dict(e="", t=0, op=0, k="", st="", n=0, keys=[], ckey="", wk=False, ty="", rop=0, out="", pend=[], hf=False)
 
 
 def opclass(op):
@@ -175,6 +179,14 @@ class Recorder:
         self.live = set()  # connection handles that are up, as told by the events seen so far
         self.labels = {}  # procedure key -> situation label (signatures only)
         self.notes = []
+        self.crossed = set()  # task ids whose current call has put its packet on the transport
+        self.sink_failed = set()  # task ids whose current call saw the transport sink raise
+
+    def _cur_task_id(self):
+        try:
+            return self.task_id() if asyncio.current_task() is not None else 0
+        except RuntimeError:
+            return 0
 
     def ev(self, e, **kw):
         d = dict(BLANK)
@@ -193,7 +205,11 @@ class Recorder:
     # --- tap side
     def h2c(self, pkt):
         if self.on:
+            self.crossed.add(self._cur_task_id())  # Host.send_hci_packet runs in the caller's task
             self.ev("h2c", op=H.opcode_of(pkt))
+
+    def sink_raises(self):
+        self.sink_failed.add(self._cur_task_id())
 
     def rcv(self, pkt):
         if self.on:
@@ -260,10 +276,15 @@ class RecTap(rig.HciTap):
         super().__init__(host, controller, rng=rng, max_delay=max_delay)
         self.rec = rec
         self.puppet = puppet
+        self.fail_h2c = 0  # number of command packets for which the sink's on_packet raises (a failing transport write)
 
     def _h2c(self, packet):
         packet = bytes(packet)
         if packet[0] == 0x01:
+            if self.fail_h2c > 0 and self.rec.on:
+                self.fail_h2c -= 1
+                self.rec.sink_raises()
+                raise OSError("transport write failed (injected by the harness)")  # nothing crosses to the controller
             self.rec.h2c(packet)
         super()._h2c(packet)
 
@@ -293,6 +314,15 @@ class RecTap(rig.HciTap):
 FUNNELS = ("send_command", "send_sync_command_raw", "send_async_command")
 
 
+def unserialisable(command):
+    """the command object cannot be turned into a packet (public operation: bytes(command))"""
+    try:
+        bytes(command)
+        return False
+    except Exception:
+        return True
+
+
 def instrument(host, rec):
     """call / ret events for everything that enters the host's command path (public entry points that lead
     straight into Host._send_command; send_sync_command goes through send_sync_command_raw)."""
@@ -306,6 +336,8 @@ def instrument(host, rec):
                 return await orig(command, *a, **kw)
             t = rec.task_id()
             rec.open_calls[t] = command.op_code
+            rec.crossed.discard(t)
+            rec.sink_failed.discard(t)
             rec.ev("call", t=t, op=command.op_code)
             try:
                 r = await orig(command, *a, **kw)
@@ -318,7 +350,11 @@ def instrument(host, rec):
             except BaseException as e:
                 if rec.on:
                     rec.open_calls.pop(t, None)
-                    rec.ev("ret", t=t, out="exc:" + type(e).__name__, rop=0, k="")
+                    # hand-over failure: no packet of this call crossed the tap AND the harness knows why it could not
+                    # (the sink raised for it, or the command object cannot be turned into bytes at all).  Any other
+                    # exception out of a call is left to the trace specification, which has no action for it.
+                    hf = t not in rec.crossed and (t in rec.sink_failed or unserialisable(command))
+                    rec.ev("ret", t=t, out="exc:" + type(e).__name__, rop=0, k="", hf=hf)
                 raise
             if rec.on:
                 rec.open_calls.pop(t, None)
@@ -429,10 +465,14 @@ async def bring_up(stacks, record=False):
 
 
 async def caller(stack, cmds, rng, gap=0.05):
-    """one caller task: issues its commands one after the other"""
+    """one caller task: issues its commands one after the other.  An item ("sinkfail", command) arms the tap so that
+    the transport sink raises for the next command packet the host writes (normally this one)."""
     for c in cmds:
         if gap:
             await asyncio.sleep(rng.uniform(0, gap))
+        if isinstance(c, tuple):
+            stack.tap.fail_h2c += 1
+            c = c[1]
         try:
             await stack.host.send_command(c)
         except Exception:
@@ -525,19 +565,131 @@ def catalogue(rng):
     return items
 
 
-CAPS = [
-    {},
-    {"supported_commands": set()},
-    {"le_features": 0},
-]
+# ----------------------------------------------------------------------------- commands whose hand-over fails
+_SIZES = {1: 1, 2: 2, 3: 4, 4: 4, -1: 1, -2: 2, ">2": 2, ">4": 4}  # field spec -> bytes struct.pack is given room for
 
 
-def _cap_cfg(i):
+def _bad_values(spec):
+    """values that do not fit a field of this spec (the constructor takes them, the serialiser cannot)"""
+    if isinstance(spec, dict):
+        if "serializer" in spec:
+            return []
+        spec = spec.get("size")
+    if spec in _SIZES:
+        n = _SIZES[spec]
+        return [1 << (8 * n), (1 << (8 * n)) + 0x2345, -(1 << (8 * n)) - 1, 1 << 40]
+    if spec == "v":
+        return ["v256"]  # 256 bytes behind a one-byte length
+    return []
+
+
+def make_bad(d):
+    """d: {op, base: hex of a well-formed packet of that class, field, idx (array element or -1), value} -> command object
+    built by the class' own constructor from the parsed fields of `base`, with one field given a value that does not fit"""
     from bumble import hci
 
-    cfg = dict(CAPS[i % len(CAPS)])
+    cls = hci.HCI_Command.command_classes[d["op"]]
+    kw = hci.HCI_Object.dict_from_bytes(bytes.fromhex(d["base"])[4:], 0, cls.fields)
+    v = bytes(256) if d["value"] == "v256" else d["value"]
+    if d["idx"] >= 0:
+        arr = list(kw[d["field"]])
+        arr[d["idx"]] = v
+        v = arr
+    kw[d["field"]] = v
+    return cls(**kw)
+
+
+def bad_catalogue(by_op, rng, per_class=1):
+    """[descriptor for make_bad]: for every class with declared fields, `per_class` (field, out-of-range value) picks that
+    construct fine and cannot be serialised (checked here with bytes(); picks that do serialise are dropped)"""
+    from bumble import hci
+
+    out = []
+    for op in sorted(by_op):
+        cls = hci.HCI_Command.command_classes.get(op)
+        if cls is None or not cls.fields or "from_parameters" in cls.__dict__:
+            continue
+        base = by_op[op][0]
+        cands = []
+        for f in cls.fields:
+            if isinstance(f, list):
+                try:
+                    kw = hci.HCI_Object.dict_from_bytes(base[4:], 0, cls.fields)
+                except Exception:
+                    continue
+                for name, spec in f:
+                    if len(kw.get(name, ())) > 0:
+                        cands += [(name, rng.randrange(len(kw[name])), v) for v in _bad_values(spec)]
+            else:
+                cands += [(f[0], -1, v) for v in _bad_values(f[1])]
+        rng.shuffle(cands)
+        got = 0
+        for name, idx, v in cands:
+            d = {"op": op, "base": base.hex(), "field": name, "idx": idx, "value": v}
+            try:
+                c = make_bad(d)
+            except Exception:
+                continue  # this class checks the value when the object is built: nothing to hand over
+            if unserialisable(c):
+                out.append(d)
+                got += 1
+                if got >= per_class:
+                    break
+    return out
+
+
+def _item(x):
+    """descriptor item -> what caller() takes: hex packet | {"bad": {...}} | {"sinkfail": hex packet}"""
+    from bumble import hci
+
+    if isinstance(x, str):
+        return hci.HCI_Command.from_bytes(bytes.fromhex(x))
+    if "bad" in x:
+        return make_bad(x["bad"])
+    return ("sinkfail", hci.HCI_Command.from_bytes(bytes.fromhex(x["sinkfail"])))
+
+
+# controller capability sets.  Each entry: attribute -> how to derive it from the class default
+def _ext_commands(default):
+    """the default set plus the LE extended advertising / scanning / create connection commands (a controller
+    on which hosts use the extended procedures)"""
+    from bumble import hci
+
+    extra = {v for n, v in vars(hci).items()
+             if n.startswith("HCI_LE_") and n.endswith("_COMMAND") and isinstance(v, int)
+             and ("EXTENDED" in n or "ADVERTISING_SET" in n or "PERIODIC_ADVERTISING" in n)}
+    return set(default) | extra
+
+
+# LE features whose absence changes what a controller does with a peer's LL procedure
+LL_FEATURES = ["PERIPHERAL_INITIATED_FEATURE_EXCHANGE", "LE_ENCRYPTION", "CONNECTION_PARAMETERS_REQUEST_PROCEDURE", "EXTENDED_REJECT_INDICATION",
+               "LE_PING", "LE_DATA_PACKET_LENGTH_EXTENSION", "LE_2M_PHY", "LE_EXTENDED_ADVERTISING", "CHANNEL_SELECTION_ALGORITHM_2",
+               "CONNECTED_ISOCHRONOUS_STREAM_CENTRAL", "CONNECTED_ISOCHRONOUS_STREAM_PERIPHERAL"]
+CAPS = [
+    {},
+    {"supported_commands": "none"},
+    {"le_features": "none"},
+    {"supported_commands": "ext"},
+] + [{"le_features": "-" + f} for f in LL_FEATURES] + [{"supported_commands": "ext", "le_features": "-" + LL_FEATURES[0]}]
+NCAPS0 = 4  # the first NCAPS0 sets are the coarse ones
+
+
+def _cap_cfg(i, coarse=False):
+    from bumble import hci
+    from bumble.controller import Controller
+
+    cfg = dict(CAPS[i % (NCAPS0 if coarse else len(CAPS))])
+    if "supported_commands" in cfg:
+        cfg["supported_commands"] = set() if cfg["supported_commands"] == "none" else _ext_commands(Controller.supported_commands)
     if "le_features" in cfg:
-        cfg["le_features"] = hci.LeFeatureMask(0)
+        if cfg["le_features"] == "none":
+            cfg["le_features"] = hci.LeFeatureMask(0)
+        else:
+            bit = getattr(hci.LeFeatureMask, cfg["le_features"][1:], None)
+            if bit is None:  # (a feature name this tree does not have: nothing to take away)
+                del cfg["le_features"]
+            else:
+                cfg["le_features"] = hci.LeFeatureMask(Controller.le_features & ~bit)
     return cfg
 
 
@@ -550,11 +702,12 @@ def run_cat(desc, factories=None):
 
     async def build():
         link = LocalLink()
-        s = Stack(0, link, rng, desc["delay"], controller_cfg=_cap_cfg(desc.get("cap", 0)), **(factories or {}))
+        # (a single controller without peer: only the coarse capability sets make a difference)
+        s = Stack(0, link, rng, desc["delay"], controller_cfg=_cap_cfg(desc.get("cap", 0), coarse=True), **(factories or {}))
         await bring_up([s])
         s.rec.weak_keys = {"lecon"}  # nobody else is on this link: an LE create connection may stay pending
         for cmds in desc["tasks"]:
-            objs = [hci.HCI_Command.from_bytes(bytes.fromhex(h)) for h in cmds]
+            objs = [_item(h) for h in cmds]
             asyncio.get_running_loop().create_task(caller(s, objs, rng))
         # reactive callers: a task whose first step is a command is created in the very loop iteration in which the
         # n-th reply is handed to the host, just before ("pre": it runs between the delivery and the wake-up of the
@@ -586,9 +739,9 @@ def trace_cfg(ctx):
     with open(p, "w") as f:
         f.write("SPECIFICATION TraceSpec\nCONSTANTS\n"
                 f"  Tasks = {_set(range(1, NTASKS + 1))}\n  Ops = {{}}\n  ProcOps = {{}}\n  WeakOps = {{}}\n"
-                "  CancelOp = 0\n  CancelTarget = 0\n  MaxCalls = 1000000\n  CreditGames = TRUE\n"
+                "  CancelOp = 0\n  CancelTarget = 0\n  AliasOp = 0\n  AliasTarget = 0\n  FailOps = {}\n  MaxCalls = 1000000\n  CreditGames = TRUE\n"
                 "  HostBug = \"none\"\n  CtrlBug = \"none\"\n"
-                "INVARIANT Inv_OneOutstanding\nINVARIANT Inv_OneInFlight\nINVARIANT Inv_OwnOpcode\nINVARIANT Inv_Credit\nINVARIANT Inv_Pending\n"
+                "INVARIANT Inv_OneOutstanding\nINVARIANT Inv_OneInFlight\nINVARIANT Inv_OwnOpcode\nINVARIANT Inv_Credit\nINVARIANT Inv_Pending\nINVARIANT Inv_SlotFree\n"
                 "CHECK_DEADLOCK FALSE\n")
     return p
 
@@ -622,6 +775,11 @@ def diagnose(tr, meta, l, st):
             t = [t for t in waiting if task[t] in ("waitrsp", "ready")]
             return ("host:return:none", f"the reply was emitted but the caller never resumed: tasks {t}, state {st}")
         if waiting:
+            if any(x["e"] == "ret" and x["hf"] for x in tr[:l]):
+                n = sum(1 for x in tr[:l] if x["e"] == "ret" and x["hf"])
+                return ("host:send:blocked:after-handover-failure",
+                        f"after {n} call(s) ended with an exception because the command could not be handed to the transport (nothing crossed to the "
+                        f"controller), callers {[(t, opname(ops[t])) for t in waiting]} wait for the command semaphore for ever although nothing is outstanding")
             return ("host:send:blocked", f"callers {[(t, opname(ops[t])) for t in waiting]} still wait for the command semaphore with nothing outstanding")
         open_ = sorted(set(st.get("ctrlProc", ())) - set(st.get("weak", ())))
         if open_:
@@ -650,6 +808,8 @@ def diagnose(tr, meta, l, st):
                     f"the controller answered {opname(cur)} with a {ev['k']} carrying the opcode of {opname(ev['op'])}")
         return ("controller:reply:credit", f"reply not admissible in state {st}: {ev}")
     if e == "ret":
+        if ev["out"] != "ok" and ev["hf"]:
+            raise Harness(f"a failed hand-over was logged for task {ev['t']} which the specification does not see waiting to send: {st}")
         if ev["out"] != "ok":
             return (f"host:return:{ev['out']}", f"send_command raised {ev['out']} for task {ev['t']} ({opname(ops.get(ev['t'], 0))})")
         return ("host:return:wrong-reply",
@@ -669,14 +829,21 @@ def validate(ctx, rep, runs, chunk=350, tag="trace"):
             meta = {"labels": dict(s.rec.labels), "situation": s.rec.situation, "notes": s.rec.notes[:4], "stack": s.i}
             items.append((desc, s.rec.events, meta))
     cfg = trace_cfg(ctx)
-    if len(items) <= 2 * chunk:
+    nev = sum(len(tr) for (_, tr, _) in items)
+    if nev <= 3000:
         chunk = max(len(items), 1)  # one JVM start is cheaper than two small batches
-    chunks = [items[i:i + chunk] for i in range(0, len(items), chunk)]
+    else:  # about 1.2k events/s per TLC: spread over up to 6 JVMs
+        chunk = min(chunk, max(1, -(-len(items) // 6)))
+    # long traces are spread evenly over the chunks (proc traces are ten times as long as single-command ones)
+    order = sorted(range(len(items)), key=lambda i: -len(items[i][1]))
+    nch = -(-len(items) // chunk) if items else 1
+    chunks = [[items[i] for i in order[c::nch]] for c in range(nch)]
+    chunks = [ch for ch in chunks if ch]
 
     def one(ch):
         return tlc.trace_batch(ctx.spec("Hci", "CommandTrace.tla"), cfg, [tr for (_, tr, _) in ch], tag=tag)
 
-    with concurrent.futures.ThreadPoolExecutor(max_workers=3) as ex:
+    with concurrent.futures.ThreadPoolExecutor(max_workers=6) as ex:
         results = list(ex.map(one, chunks))
     bad = 0
     for ch, res in zip(chunks, results):
@@ -696,7 +863,10 @@ def validate(ctx, rep, runs, chunk=350, tag="trace"):
             sig, summary = diagnose(tr, meta, l, v[3] if len(v) > 3 and isinstance(v[3], dict) else {})
             if meta["notes"]:
                 summary += f"; exceptions seen by the event loop: {meta['notes']}"
-            rep.violation(sig, f"[{desc['fam']}/{desc.get('name', '')} stack {meta['stack']}] event {l} ({tr[l - 1]['e']}): {summary}",
+            where = f"{desc['fam']}/{desc.get('name', '')}" + (f" variant {desc['variant']}" if "variant" in desc else "")
+            if desc.get("caps"):
+                where += " capability sets " + " / ".join(json.dumps(CAPS[i % len(CAPS)]) or "{}" for i in desc["caps"])
+            rep.violation(sig, f"[{where} stack {meta['stack']}] event {l} ({tr[l - 1]['e']}): {summary}",
                           {"desc": desc, "stack": meta["stack"], "line": l, "trace": tr})
     return bad
 
@@ -721,6 +891,9 @@ class World:
         self.completed = 0
 
     def stack(self, **kw):
+        caps = self.desc.get("caps")  # capability set per stack, in creation order
+        if caps and len(self.stacks) < len(caps) and "controller_cfg" not in kw:
+            kw["controller_cfg"] = _cap_cfg(caps[len(self.stacks)])
         s = Stack(len(self.stacks), self.link, self.rng, self.delay, **{**self.factories, **kw})
         self.stacks.append(s)
         return s
@@ -792,11 +965,21 @@ def _le_create(peer, own=0):
         connection_interval_min=24, connection_interval_max=40, max_latency=0, supervision_timeout=72, min_ce_length=0, max_ce_length=0)
 
 
-async def _le_connect(w, c, p):
+def _le_create_ext(peer, own=0, phys=1):
+    from bumble import hci
+
+    n = bin(phys).count("1")
+    return hci.HCI_LE_Extended_Create_Connection_Command(
+        initiator_filter_policy=0, own_address_type=own, peer_address_type=0, peer_address=hci.Address(peer, hci.Address.PUBLIC_DEVICE_ADDRESS),
+        initiating_phys=phys, scan_intervals=[96] * n, scan_windows=[96] * n, connection_interval_mins=[24] * n, connection_interval_maxs=[40] * n,
+        max_latencies=[0] * n, supervision_timeouts=[72] * n, min_ce_lengths=[0] * n, max_ce_lengths=[0] * n)
+
+
+async def _le_connect(w, c, p, ext=False):
     from bumble import hci
 
     await cmd(p, hci.HCI_LE_Set_Advertising_Enable_Command(advertising_enable=1))
-    await cmd(c, _le_create(p.address))
+    await cmd(c, _le_create_ext(p.address) if ext else _le_create(p.address))
     await until(lambda: last_up(c) is not None and last_up(p) is not None)
     return last_up(c), last_up(p)
 
@@ -898,6 +1081,95 @@ async def sc_le_cancel_misc(w):
         w.script(cmd(c, _le_create(p.address)))
         await asyncio.sleep(w.rng.uniform(0, 0.3))
         await cmd(c, hci.HCI_LE_Create_Connection_Cancel_Command())
+
+    w.script(script())
+
+
+async def sc_le_second(w):
+    """a second LE connection creation (legacy or extended command) while one is pending at the controller, then
+    nothing / cancel / cancel and a new creation / the peer starts advertising.  Whatever the controller decides,
+    each reply has to name the command that is outstanding, and a cancelled or completed creation is concluded.
+    variant = first (legacy | extended) x second (legacy | extended) x what follows (4) x second issued concurrently or not"""
+    from bumble import hci
+
+    c, p = w.stack(), w.stack()
+    await w.up()
+    v = w.desc.get("variant", 0)
+    first, second, then, race = v % 2, (v // 2) % 2, (v // 4) % 4, (v // 16) % 2
+    target = p.address if then == 3 else ABSENT
+    if then != 3:
+        c.rec.weak_keys = {"lecon"}  # nobody advertises with that address: the creation may stay pending
+    w.noise(c)
+    mk = [_le_create, _le_create_ext]
+
+    async def script():
+        if race:  # both creations queued in the host at the same time
+            w.script(cmd(c, mk[first](target)))
+            await asyncio.sleep(0)
+            await cmd(c, mk[second](target))
+        else:
+            await cmd(c, mk[first](target))
+            await asyncio.sleep(w.rng.uniform(0.0, 2.0))
+            await cmd(c, mk[second](target))
+        await asyncio.sleep(2.0)
+        if then in (1, 2):
+            await cmd(c, hci.HCI_LE_Create_Connection_Cancel_Command())
+            await asyncio.sleep(2.0)
+            if then == 2:
+                await cmd(c, mk[1 - first](target))
+                await cmd(c, mk[first](target))
+                await cmd(c, hci.HCI_LE_Create_Connection_Cancel_Command())
+        elif then == 3:
+            await cmd(p, hci.HCI_LE_Set_Advertising_Enable_Command(advertising_enable=1))
+            await until(lambda: last_up(c) is not None)
+            await cmd(c, mk[second](ABSENT))  # the creation is over: a new one is a new procedure
+            await cmd(c, hci.HCI_LE_Create_Connection_Cancel_Command())
+
+    w.script(script())
+
+
+async def sc_le_roles(w):
+    """the handle-addressed procedures issued from BOTH ends of an LE connection (central and peripheral), under the
+    capability sets of the two controllers given by desc["caps"]: LE Read Remote Features, Read Remote Version
+    Information, Read Remote Supported Features, LE Enable Encryption, then - depending on the variant - the link is
+    left up (a Disconnection Complete would conclude whatever is pending and hide a procedure that is never concluded
+    on its own) or disconnected by either end.
+    variant % 4: 0 = central first, link stays up; 1 = peripheral first, link stays up; 2 / 3 = disconnect by central / peripheral;
+    variant // 4 % 2: connection created with the extended command"""
+    from bumble import hci
+
+    c, p = w.stack(), w.stack()
+    await w.up()
+    v = w.desc.get("variant", 0)
+    w.noise(c if v % 2 == 0 else p)
+
+    async def script():
+        hc, hp = await _le_connect(w, c, p, ext=bool((v // 4) % 2))
+        ends = [(c, hc), (p, hp)]
+        if v % 2:
+            ends.reverse()
+        for mk in (lambda h: hci.HCI_LE_Read_Remote_Features_Command(connection_handle=h),
+                   lambda h: hci.HCI_Read_Remote_Version_Information_Command(connection_handle=h),
+                   lambda h: hci.HCI_Read_Remote_Supported_Features_Command(connection_handle=h)):
+            for s, h in ends:
+                try:
+                    await cmd(s, mk(h))
+                except CommandFailed:
+                    pass  # refused: a reply all the same (the trace has it)
+            await asyncio.sleep(w.rng.choice([0.0, 1.0]))
+        # the features once more from both ends at the same time
+        for s, h in ends:
+            w.script(cmd(s, hci.HCI_LE_Read_Remote_Features_Command(connection_handle=h)))
+        await asyncio.sleep(2.0)
+        for s, h in (ends if v % 4 < 2 else ends[:1]):
+            try:
+                await cmd(s, _enc(h))
+            except CommandFailed:
+                pass
+            await asyncio.sleep(1.0)
+        if v % 4 >= 2:
+            s, h = (c, hc) if v % 4 == 2 else (p, hp)
+            await cmd(s, hci.HCI_Disconnect_Command(connection_handle=h, reason=0x13))
 
     w.script(script())
 
@@ -1031,6 +1303,11 @@ SCENARIOS = {
     "le_cancel_misc": (sc_le_cancel_misc, 1), "classic_absent": (sc_classic_absent, 2), "classic_session": (sc_classic_session, 4),
     "unknown_handles": (sc_unknown_handles, 1), "vanish": (sc_vanish, 6), "cis": (sc_cis, 2),
 }
+BASE_SCENARIOS = list(SCENARIOS)
+# families with their own plan (capability sets x roles; kinds of creation command)
+SCENARIOS.update({"le_second": (sc_le_second, 32), "le_roles": (sc_le_roles, 8)})
+# capability sets of (central, peripheral): every set on either end against the default, and some on both ends
+CAP_PAIRS = [(0, 0)] + [(i, 0) for i in range(1, len(CAPS))] + [(0, i) for i in range(1, len(CAPS))] + [(1, 1), (2, 2), (3, 3), (4, 4), (len(CAPS) - 1, 2)]
 
 
 def run_proc(desc, factories=None):
@@ -1095,6 +1372,10 @@ def run_puppet(desc):
                 lambda: hci.HCI_Disconnect_Command(connection_handle=rng.choice([1, 2, 0x0EEE]), reason=0x13),
                 lambda: hci.HCI_Command(bytes([rng.randrange(256)]), op_code=0xFC10),
                 lambda: hci.HCI_Command(b"", op_code=0xFC11)]
+        if desc.get("bads"):  # hand-over failures while the scripted controller plays its credit games
+            pool += [lambda: ("sinkfail", hci.HCI_Write_Scan_Enable_Command(scan_enable=1))]  # (status-only return parameters)
+            if desc["bads"][0] is not None:
+                pool += [lambda: make_bad(rng.choice(desc["bads"]))]
         for _ in range(desc["k"]):
             cmds = [rng.choice(pool)() for _ in range(desc["n"])]
             loop.create_task(caller(s, cmds, rng, gap=0.4))
@@ -1160,23 +1441,62 @@ def plan(ctx):
         react = [{"cmd": rng.choice(cat)[1].hex(), "at": rng.randint(1, 5), "when": rng.choice(["pre", "pre", "post"])} for _ in range(1 + j % 3)]
         descs.append({"fam": "cat", "name": f"react{k}", "tasks": tasks, "react": react, "seed": rng.randrange(1 << 30),
                       "delay": rng.choice([0.0, 0.02, 0.3]), "cap": j})
-    for name, (_, nv) in SCENARIOS.items():
-        for v in range(nv):
+    for name in BASE_SCENARIOS:
+        for v in range(SCENARIOS[name][1]):
             for r in range(2 if quick else 12):
-                descs.append({"fam": "proc", "name": name, "variant": v, "seed": rng.randrange(1 << 30),
-                              "delay": rng.choice([0.0, 0.05, 0.4]), "k": 1 + (r + v) % 4})
+                d = {"fam": "proc", "name": name, "variant": v, "seed": rng.randrange(1 << 30),
+                     "delay": rng.choice([0.0, 0.05, 0.4]), "k": 1 + (r + v) % 4}
+                if r % 2:  # every other repetition on controllers with seeded capability sets
+                    d["caps"] = [rng.randrange(len(CAPS)), rng.randrange(len(CAPS))]
+                descs.append(d)
+    # hand-over failures: a command object that cannot be serialised (one field with a value that does not fit), or a
+    # transport sink that raises for one packet - issued by one of 1..4 concurrent callers, never as a caller's last command
+    bads = bad_catalogue(by_op, rng, per_class=1 if quick else 3)
+    # (a tree whose command classes check their values when the object is built yields none: the failing sink remains)
+    good = [pkt for (_, pkt) in cat]
+    fails = []
+    if not quick:
+        fails += [[[{"bad": b}, rng.choice(good).hex()]] for b in bads]  # every one alone, followed by one command
+    for j in range(70 if quick else 700):
+        k = 1 + j % 4
+        tasks = [[rng.choice(good).hex() for _ in range(rng.randint(1, 3))] for _ in range(k)]
+        for _ in range(1 + (j // 4) % 2):
+            t = rng.randrange(k)
+            use_bad, other = rng.random() < 0.6, rng.choice(good).hex()
+            item = {"bad": bads[(j * 7 + len(tasks[t])) % len(bads)]} if (use_bad and bads) else {"sinkfail": other}
+            tasks[t].insert(rng.randrange(len(tasks[t])), item)
+        fails.append(tasks)
+    for j, tasks in enumerate(fails):
+        descs.append({"fam": "cat", "name": f"fail{len(tasks)}", "tasks": tasks, "seed": rng.randrange(1 << 30),
+                      "delay": rng.choice([0.0, 0.02, 0.3]), "cap": j})
+    # a second connection creation (legacy / extended) while one is pending, on controllers with and without the extended commands
+    for v in range(SCENARIOS["le_second"][1]):
+        for r in range(1 if quick else 6):
+            descs.append({"fam": "proc", "name": "le_second", "variant": v, "seed": rng.randrange(1 << 30), "delay": rng.choice([0.0, 0.05, 0.4]),
+                          "k": 1 + (v + r) % 3, "caps": [[3, 0, NCAPS0 + (v + r) % len(LL_FEATURES)][(v // 2 + r) % 3], 0]})
+    # procedures from both roles under every capability set on either controller
+    pairs = list(CAP_PAIRS) + ([] if quick else [(rng.randrange(len(CAPS)), rng.randrange(len(CAPS))) for _ in range(30)])
+    for idx, (a, b) in enumerate(pairs):
+        ext = 4 * ((idx // 2) % 2)
+        vs = ([idx % 2] + ([2 + (idx // 4) % 2] if idx % 4 == 0 else [])) if quick else list(range(4))
+        for v in vs:
+            for e in ([ext] if quick else [0, 4]):
+                descs.append({"fam": "proc", "name": "le_roles", "variant": v + e, "seed": rng.randrange(1 << 30), "delay": rng.choice([0.0, 0.05, 0.4]),
+                              "k": 1 + (idx + v) % 3, "caps": [a, b]})
     for j in range(4 if quick else 20):
         descs.append({"fam": "bringup", "name": "reset", "seed": rng.randrange(1 << 30), "delay": rng.choice([0.0, 0.05, 0.4]), "n": 1 + j % 2})
     for j in range(30 if quick else 600):
         descs.append({"fam": "puppet", "name": "credit", "seed": rng.randrange(1 << 30), "delay": rng.choice([0.0, 0.1, 0.5]),
-                      "k": 1 + j % 4, "n": rng.randint(2, 5)})
+                      "k": 1 + j % 4, "n": rng.randint(2, 5), "bads": [rng.choice(bads or [None]) for _ in range(2)] if j % 2 else []})
     return descs, len(by_op)
 
 
 def run(ctx, rep):
     rep.rule = ("one trace per host<->controller pair per scenario, validated by CommandTrace.tla: (cat) every class of HCI_Command.command_classes "
-                "and 21 unregistered opcodes alone and in seeded mixes issued by 1..4 concurrent callers; (proc) procedure scenarios with peers "
-                "present / absent / vanishing; (puppet) the real Host against a scripted controller with command-credit games; "
+                "and 21 unregistered opcodes alone and in seeded mixes issued by 1..4 concurrent callers, incl. commands whose hand-over fails "
+                "(unserialisable field value, sink that raises once) followed by further commands; (proc) procedure scenarios with peers "
+                "present / absent / vanishing, second LE connection creation (legacy / extended) while one is pending, procedures from central and "
+                "peripheral under each capability set on either controller with the link left up; (puppet) the real Host against a scripted controller with command-credit games; "
                 "distinct = distinct event sequences")
     rep.assumptions = [
         "Command Complete or Command Status are both accepted as the one reply to any command (DESIGN Appendix D)",
@@ -1184,12 +1504,19 @@ def run(ctx, rep):
         "a successful Disconnection Complete concludes every procedure pending on that handle",
         "advertising intervals are kept >= 0x20 (the virtual controller re-arms a zero-delay timer otherwise; harness hazard)",
         "virtual-time event loop preserves asyncio callback order; tap delay lines are FIFO",
+        "a call may end with an exception without a reply only if no packet of it crossed the tap and the harness knows why (bytes(command) raises, "
+        "or the injected sink fault hit that call); the command slot has to be free afterwards",
     ]
     import time
 
     t0 = time.time()
-    with concurrent.futures.ThreadPoolExecutor(max_workers=1) as ex:
+    from lib import repotests
+
+    with concurrent.futures.ThreadPoolExecutor(max_workers=2) as ex:
         mcf = ex.submit(model_check, ctx, rep)  # TLC runs in the background while the real code is driven
+        # so does the monitor over the repository's own tests (a pytest subprocess + its TLC runs; the result is
+        # cached by lib.repotests and reported below)
+        rtf = ex.submit(repotests.run, ctx)
         descs, nops = plan(ctx)
         runs = []
         stuck = []
@@ -1206,8 +1533,7 @@ def run(ctx, rep):
         t2 = time.time()
         # the repository's own tests, traced at the HCI boundary of every Host / Controller they create, against the C03
         # clauses of specs/Stack/HciMonitor.tla (one command outstanding, replies name it, everything answered)
-        from lib import repotests
-
+        rtf.result()
         repotests.report(ctx, rep, "C03_")
         mcf.result()
     rep.extra["phase_wall_s"] = {"drive_real_code": round(t1 - t0, 1), "validate_traces": round(t2 - t1, 1), "model_checking_total": round(time.time() - t0, 1)}
@@ -1225,6 +1551,16 @@ def run(ctx, rep):
     for need in ("call", "h2c", "rcv", "c2h", "evt", "nop", "dlv", "ret", "quiesce"):
         if not ev.get(need):
             raise Harness(f"no scenario produced a single '{need}' event")
+    hf = {}
+    for d, stacks in runs:
+        for s in stacks:
+            for e in s.rec.events:
+                if e["e"] == "ret" and e["hf"]:
+                    hf[e["out"]] = hf.get(e["out"], 0) + 1
+    rep.extra["handover_failures"] = hf
+    rep.extra["unserialisable_command_objects"] = sum(1 for d in descs for task in d.get("tasks", []) for x in task if isinstance(x, dict) and "bad" in x)
+    if sum(hf.values()) < 20:
+        raise Harness(f"the hand-over failure scenarios produced only {hf} failed hand-overs")
     scripts = [d["_scripts"] for d, _ in runs if "_scripts" in d]
     rep.extra["proc_scripts_started_completed"] = [sum(a for a, _ in scripts), sum(b for _, b in scripts)]
     rep.exhaustive = False
@@ -1285,7 +1621,33 @@ def _shims():
         def on_le_disconnected(self, connection, reason):
             del self.le_connections[connection.peer_address]
 
-    return EarlyReleaseHost, SilentController, DoubleReplyController, ForeignOpcodeController, NoCompletionController
+    class KeepSlotHost(Host):  # a failed hand-over leaves the command slot taken
+        def send_hci_packet(self, packet):
+            try:
+                super().send_hci_packet(packet)
+            except Exception:
+                if isinstance(packet, hci.HCI_Command) and self.ready:
+                    # the permit the caller gives back on its way out is taken again and never returned
+                    asyncio.get_running_loop().create_task(self.command_semaphore.acquire())
+                raise
+
+    class AliasReplyController(Controller):  # refuses a second creation in the name of the legacy command
+        def on_hci_le_extended_create_connection_command(self, command):
+            if self.pending_le_connection:
+                self._send_hci_command_status(hci.HCI_ErrorCode.COMMAND_DISALLOWED_ERROR, hci.HCI_LE_CREATE_CONNECTION_COMMAND)
+                return None
+            return super().on_hci_le_extended_create_connection_command(command)
+
+    class DeafCentralController(Controller):  # does not answer a feature exchange started by the peripheral
+        def on_ll_control_pdu(self, sender_address, packet):
+            from bumble import ll
+
+            if isinstance(packet, ll.PeripheralFeatureReq):
+                return
+            super().on_ll_control_pdu(sender_address, packet)
+
+    return (EarlyReleaseHost, SilentController, DoubleReplyController, ForeignOpcodeController, NoCompletionController,
+            KeepSlotHost, AliasReplyController, DeafCentralController)
 
 
 def selftest(ctx, rep):
@@ -1295,14 +1657,18 @@ def selftest(ctx, rep):
     sigs = {}
     # (1) the model's own negative controls: the invariants / liveness properties have teeth
     base = dict(Tasks=[1, 2], Ops=[1, 2], ProcOps=[2], WeakOps=[], CancelOp=0, CancelTarget=2, MaxCalls=1, CreditGames=False)
-    for name, bug, live, expect in (("early_release", {"HostBug": "early_release"}, False, r"Invariant Inv_OneOutstanding is violated"),
-                                    ("silent", {"CtrlBug": "silent"}, True, r"Temporal property Live_Answered was violated|Temporal properties were violated"),
-                                    ("forget", {"CtrlBug": "forget"}, True, r"Temporal property Live_Concluded was violated|Temporal properties were violated")):
-        out = _tlc_raw(ctx, "neg_" + name, {**base, **bug}, live)
+    for name, bug, live, invs, expect in (
+            ("early_release", {"HostBug": "early_release"}, False, ["Inv_OneOutstanding"], r"Invariant Inv_OneOutstanding is violated"),
+            ("silent", {"CtrlBug": "silent"}, True, None, r"Temporal property Live_Answered was violated|Temporal properties were violated"),
+            ("forget", {"CtrlBug": "forget"}, True, None, r"Temporal property Live_Concluded was violated|Temporal properties were violated"),
+            # a failed hand-over that keeps the command slot: the slot invariant, and (without it) the liveness of the later callers
+            ("keep_slot", {"HostBug": "keep_slot", "FailOps": [1]}, False, ["Inv_SlotFree"], r"Invariant Inv_SlotFree is violated"),
+            ("keep_slot_live", {"HostBug": "keep_slot", "FailOps": [1]}, True, ["TypeOK"], r"Temporal property Live_Answered was violated|Temporal properties were violated")):
+        out = _tlc_raw(ctx, "neg_" + name, {**base, **bug}, live, invs)
         results["model:" + name] = bool(re.search(expect, out))
 
     # (2) shims around the real Host / Controller
-    EarlyReleaseHost, Silent, Double, Foreign, NoCompletion = _shims()
+    EarlyReleaseHost, Silent, Double, Foreign, NoCompletion, KeepSlotHost, AliasReply, DeafCentral = _shims()
     bd = bytes(hci.HCI_Read_BD_ADDR_Command()).hex()
     rnd = bytes(hci.HCI_LE_Rand_Command()).hex()
 
@@ -1329,6 +1695,22 @@ def selftest(ctx, rep):
         check(nm, [(dd, stacks)])
     dp = {"fam": "proc", "name": "le_session", "variant": 0, "seed": 3, "delay": 0.05, "k": 2}
     check("no_completion_controller", [(dp, run_proc(dict(dp), {"controller_factory": NoCompletion}))])
+
+    # the dimensions added after the second round of seeded changes: failed hand-over, second creation, roles x capabilities
+    bad = {"bad": {"op": hci.HCI_DISCONNECT_COMMAND, "base": bytes(hci.HCI_Disconnect_Command(connection_handle=1, reason=0x13)).hex(),
+                   "field": "connection_handle", "idx": -1, "value": 0x12345}}
+    for nm, tasks in (("keep_slot_host_unserialisable", [[bd, bad, rnd, bd, rnd], [rnd, bd, rnd]]),
+                      ("keep_slot_host_sink_raises", [[bd, {"sinkfail": rnd}, rnd, bd, rnd], [rnd, bd, rnd]])):
+        df = {"fam": "cat", "name": "selftest", "tasks": tasks, "seed": 2, "delay": 0.05, "cap": 0}
+        good_run = run_cat(dict(df))
+        r0 = type(rep)(rep.prop, rep.level)
+        validate(ctx, r0, [(df, good_run)], tag="selftest")
+        results["trace:" + nm + ":unmodified_host_accepted"] = len(r0.violations) == 0 and any(e["e"] == "ret" and e["hf"] for e in good_run[0].rec.events)
+        check(nm, [(df, run_cat(dict(df), {"host_factory": KeepSlotHost}))])
+    d2 = {"fam": "proc", "name": "le_second", "variant": 2, "seed": 4, "delay": 0.05, "k": 2, "caps": [3, 0]}
+    check("alias_reply_controller", [(d2, run_proc(dict(d2), {"controller_factory": AliasReply}))])
+    d3 = {"fam": "proc", "name": "le_roles", "variant": 1, "seed": 5, "delay": 0.05, "k": 1, "caps": [0, 0]}
+    check("deaf_central_controller", [(d3, run_proc(dict(d3), {"controller_factory": DeafCentral}))])
 
     # (3) corrupted copies of a trace recorded from the unmodified code must be rejected, the original accepted
     good = run_proc(dict(dp))
